@@ -85,7 +85,7 @@ def case_to_line(c):
     """id | kind | #labelsets { #pairs { k | v } } | #batches { #entries { fp | labelset | ts | err | msg | bits } } | #items { item } | #order { fp } | out
     (decoded by decode_case in model/JsonStream.v; the number texts are computed by the model from ts and the float bits)"""
     lsets, idx = [], {}
-    f = [str(c["id"]), c["kind"]]
+    f = [str(c["id"]), "vector" if c["kind"] == "shortcut" else c["kind"]]      # the canned vector(1)+vector(1) answer is a vector body
     def intern(l):
         key = json.dumps(l or [])
         if key not in idx:
